@@ -57,7 +57,7 @@ type slSpec struct {
 	Starts   []int       `json:"starts"`
 	Modes    []string    `json:"modes"`    // per plugin: ok | syncerr (its Synchronize handler fails) | syncdrop (it disconnects during synchronisation) | syncerr1 (its handler fails the first time only) | rtfail (the runtime's SyncFn fails after the callback returned, the first time only)
 	DblSeed  int64       `json:"dbl_seed"` // PRNG of the choice which blocks are released twice, and how
-	Probe    int         `json:"probe"`    // 0 none, 4 a waiting registration whose plugin goes away, 5 a block taken before Start and held across it, 1 two blocks held / one released twice, 2 released, ANOTHER block taken, released again, 3 a block held for a multiple of the request time-out with a registration pending
+	Probe    int         `json:"probe"`    // 0 none, 6 a slow synchronisation during which another goroutine asks for a block under a short request time-out, 4 a waiting registration whose plugin goes away, 5 a block taken before Start and held across it, 1 two blocks held / one released twice, 2 released, ANOTHER block taken, released again, 3 a block held for a multiple of the request time-out with a registration pending
 	Restarts []slRestart `json:"restarts"` // after the stream: plugins that stop and register again under the same name
 }
 
@@ -123,17 +123,18 @@ type slRun struct {
 	// held: sync blocks currently held = between the "acquired" log entry and the "released" log entry
 	// of the block's FIRST Unblock.  A repeated Unblock of a released block does not touch it.
 	held       int32
-	wantBlock  int32 // goroutines inside a BlockPluginSync call
-	acqs       int32 // blocks acquired so far
-	inSync     int32 // SyncFn invocations in progress
-	rets       int32 // SyncFn returns
-	total      int32 // containers created so far
-	progress   int32 // log entries so far
-	twice      int32 // blocks released a second time
-	twiceOther int32 // ... while another block was held
-	twiceLate  int32 // ... after another goroutine had acquired a block in between
-	starting   int32 // Adaptation.Start in progress: its SyncFn invocation is start-up, not a registration
-	abandon    int32 // a violation was seen: no further Unblock is issued, the run is dumped as it stands
+	wantBlock  int32  // goroutines inside a BlockPluginSync call
+	acqs       int32  // blocks acquired so far
+	inSync     int32  // SyncFn invocations in progress
+	rets       int32  // SyncFn returns
+	total      int32  // containers created so far
+	progress   int32  // log entries so far
+	twice      int32  // blocks released a second time
+	twiceOther int32  // ... while another block was held
+	twiceLate  int32  // ... after another goroutine had acquired a block in between
+	slowHook   func() // probe 6: run once inside SyncFn, after the callback returned, the exclusive section still held
+	starting   int32  // Adaptation.Start in progress: its SyncFn invocation is start-up, not a registration
+	abandon    int32  // a violation was seen: no further Unblock is issued, the run is dumped as it stands
 	stalled    int32
 	once       sync.Once
 	herr       atomic.Value
@@ -206,6 +207,14 @@ func (r *slRun) syncFn(ctx context.Context, cb adaptation.SyncCB) error {
 			}
 		}
 		r.mu.Unlock()
+	}
+
+	r.mu.Lock()
+	hook := r.slowHook
+	r.slowHook = nil
+	r.mu.Unlock()
+	if hook != nil && err == nil {
+		hook()
 	}
 
 	if h := atomic.LoadInt32(&r.held); h != 0 {
@@ -572,6 +581,39 @@ func (r *slRun) probeHeldAcrossStart(bs *adaptation.PluginSyncBlock, startPlugin
 	return pending
 }
 
+// probe 6: a SLOW synchronisation.  No block is held, a plugin connects and is synchronised at once; after the
+// callback has returned the driver's SyncFn stays in the exclusive section for a further second (a runtime
+// applying what the plugin asked for).  At the start of that second the plugin request time-out is made
+// short (300 ms) and another goroutine asks for a sync block and creates a container: the block must not
+// be granted before the section is given up, however long that takes — block acquisition has no time
+// bound.  The time-out is long again before SyncFn returns: on the unchanged runtime no request ever runs
+// under the short one (the callback's deadline was fixed before, the creation's is fixed after).
+func (r *slRun) probeSlowSync(startPlugin func(j int) chan error) (pending chan error) {
+	done := make(chan struct{})
+	r.mu.Lock()
+	r.slowHook = func() {
+		adaptation.SetPluginRequestTimeout(slShortTimeout)
+		go func() {
+			r.createInBlock("gq", "gq-c0", 0)
+			close(done)
+		}()
+		for t0 := time.Now(); time.Since(t0) < slLongHold && atomic.LoadInt32(&r.abandon) == 0; {
+			time.Sleep(time.Millisecond)
+		}
+		adaptation.SetPluginRequestTimeout(slLongTimeout)
+	}
+	r.mu.Unlock()
+	pending = r.waitConfigured(startPlugin(0))
+	for {
+		select {
+		case <-done:
+			return pending
+		case <-time.After(time.Millisecond):
+			r.parkIfAbandoned()
+		}
+	}
+}
+
 // buildCase: call with r.mu held.
 func (r *slRun) buildCase(abandoned bool) *slCase {
 	// resolve sync sessions to plugin instances through what the plugins received
@@ -801,6 +843,8 @@ func oneSyncLockRun(spec slSpec, out string) (*slCase, error) {
 			probe = r.probeAbandonedWaiter
 		case 5:
 			probe = func(sp func(j int) chan error) chan error { return r.probeHeldAcrossStart(early, sp) }
+		case 6:
+			probe = r.probeSlowSync
 		}
 		if pending := probe(startPlugin); pending != nil {
 			pwg.Add(1)
@@ -1068,7 +1112,7 @@ func driveSyncLock(c *hx.Ctx) error {
 	for i := 0; i < runs && failing < slMaxFailing && !stalled; i++ {
 		R := 2 + rnd.Intn(c.Pick(4, 8))
 		P := 1 + rnd.Intn(c.Pick(5, 9))
-		if i < 9 && P < 3 {
+		if i < 10 && P < 3 {
 			P = 3
 		}
 		N := c.Pick(6, 12) + rnd.Intn(c.Pick(10, 24))
@@ -1124,6 +1168,9 @@ func driveSyncLock(c *hx.Ctx) error {
 			modes[1] = "pendrop"
 		} else if i == 8 || (i > 8 && x == 1) {
 			probe = 5
+		}
+		if i == 9 || (i > 9 && rnd.Intn(c.Pick(60, 30)) == 0) { // one second each
+			probe = 6
 		}
 		var restarts []slRestart
 		switch x := rnd.Intn(6); {
@@ -1204,7 +1251,7 @@ func driveSyncLock(c *hx.Ctx) error {
 		if overlapped == 0 {
 			c.HarnessError("synclock: no plugin registered while containers were being created")
 		}
-		if twiceOther == 0 || twiceLate == 0 || probes[1] == 0 || probes[2] == 0 || probes[3] == 0 || probes[4] == 0 || probes[5] == 0 {
+		if twiceOther == 0 || twiceLate == 0 || probes[1] == 0 || probes[2] == 0 || probes[3] == 0 || probes[4] == 0 || probes[5] == 0 || probes[6] == 0 {
 			c.HarnessError("synclock: blocks released twice while another block was held: %d, after another goroutine acquired: %d, probes: %v", twiceOther, twiceLate, probes)
 		}
 		if syncFails < 2 {
@@ -1216,6 +1263,6 @@ func driveSyncLock(c *hx.Ctx) error {
 	} else {
 		c.Count("synclock.failing_runs", failing)
 	}
-	c.Stats.Rule = "synclock: every run in a child process (a runtime that dies inside its sync lock is an observation): R goroutines x N CreateContainer requests inside BlockPluginSync/Unblock on one real Adaptation while P real stubs register at PRNG-chosen points of the creation stream (every 8th run: all at once) and a noise goroutine fires StartContainer outside any block; about 25% of the plugins other than the first FAIL their synchronisation (handler error every time or the first time only, the plugin disconnects during it, or the runtime's own SyncFn returns an error AFTER the callback delivered the snapshot — the first time only: the unchanged runtime never synchronises an instance twice; po_snapshot is everything an instance was sent) and the others must still be registered and blocks obtainable; about 45% of the blocks are released TWICE (explicit Unblock plus a deferred one, the use the doc comment allows), a third of those only after another goroutine has acquired a block; the held-block counter and the log count a block as released at its first Unblock only; half of the runs start with a probe (1: two blocks held, a plugin waiting, the first released twice while the second is between relaying its creation and its bookkeeping; 2: the first block released, THEN a second one taken, a plugin waiting, then the first one's stale second Unblock) that must keep the plugin out for a further 100 ms; a few runs start with probe 3: a block held for 1 s with a registration pending while the plugin request time-out is 300 ms (set from inside the plugin's Configure handler, reset before the release: no request of the unchanged runtime runs under it), after which the registration must complete like any other; probe 4: a block held, plugin A configured and waiting, A's own side closes the connection while it waits, plugin B waits too, release — B and everybody later must be registered and blocks granted; probe 5: a block taken BEFORE Adaptation.Start, held across it, a plugin connects, the creation is relayed, 100 ms window, bookkeeping, release; half of the runs end with the first plugin disconnecting and registering again under the same index and name with no request in between (a third of those: one request in between), followed by creations the fresh instance must be sent; a run in which nothing is logged for 20 s is dumped as it stands (stuck registrations / blocks are an observation); non-trivial = some plugin completed registration with a non-empty snapshot and more than two creation requests"
+	c.Stats.Rule = "synclock: every run in a child process (a runtime that dies inside its sync lock is an observation): R goroutines x N CreateContainer requests inside BlockPluginSync/Unblock on one real Adaptation while P real stubs register at PRNG-chosen points of the creation stream (every 8th run: all at once) and a noise goroutine fires StartContainer outside any block; about 25% of the plugins other than the first FAIL their synchronisation (handler error every time or the first time only, the plugin disconnects during it, or the runtime's own SyncFn returns an error AFTER the callback delivered the snapshot — the first time only: the unchanged runtime never synchronises an instance twice; po_snapshot is everything an instance was sent) and the others must still be registered and blocks obtainable; about 45% of the blocks are released TWICE (explicit Unblock plus a deferred one, the use the doc comment allows), a third of those only after another goroutine has acquired a block; the held-block counter and the log count a block as released at its first Unblock only; half of the runs start with a probe (1: two blocks held, a plugin waiting, the first released twice while the second is between relaying its creation and its bookkeeping; 2: the first block released, THEN a second one taken, a plugin waiting, then the first one's stale second Unblock) that must keep the plugin out for a further 100 ms; a few runs start with probe 3: a block held for 1 s with a registration pending while the plugin request time-out is 300 ms (set from inside the plugin's Configure handler, reset before the release: no request of the unchanged runtime runs under it), after which the registration must complete like any other; probe 4: a block held, plugin A configured and waiting, A's own side closes the connection while it waits, plugin B waits too, release — B and everybody later must be registered and blocks granted; probe 6: a slow synchronisation — the driver's SyncFn stays in the exclusive section for 1 s after the callback returned, meanwhile the plugin request time-out is 300 ms and another goroutine asks for a block and creates a container: the block must not be granted before the section is given up; probe 5: a block taken BEFORE Adaptation.Start, held across it, a plugin connects, the creation is relayed, 100 ms window, bookkeeping, release; half of the runs end with the first plugin disconnecting and registering again under the same index and name with no request in between (a third of those: one request in between), followed by creations the fresh instance must be sent; a run in which nothing is logged for 20 s is dumped as it stands (stuck registrations / blocks are an observation); non-trivial = some plugin completed registration with a non-empty snapshot and more than two creation requests"
 	return nil
 }
